@@ -42,6 +42,19 @@ type authNet struct {
 	withBody bool
 }
 
+// addressedHost: the registry a request is addressed to is the one its Host names; the URL's
+// host is merely where the connection goes (several registries may be served as name-based
+// virtual hosts behind one front address).
+func addressedHost(req *http.Request) string {
+	if req.Host != "" {
+		return req.Host
+	}
+	return req.URL.Host
+}
+
+// frontAddr is the shared front address of the virtual-host cases.
+const frontAddr = "front.test"
+
 func (n *authNet) markers(req *http.Request, body []byte) string {
 	var found []string
 	check := func(s string) {
@@ -95,7 +108,7 @@ func (n *authNet) markers(req *http.Request, body []byte) string {
 func (n *authNet) RoundTrip(req *http.Request) (*http.Response, error) {
 	n.mu.Lock()
 	defer n.mu.Unlock()
-	host := req.URL.Host
+	host := addressedHost(req)
 	hn := n.hostNum[host]
 	var body []byte
 	recv := "none"
@@ -297,6 +310,12 @@ func runC16(seed int64, tier string, sc *Script, withBody bool) map[string]any {
 					req, _ = http.NewRequestWithContext(ctx, http.MethodPut, "https://"+host+"/v2/a/manifests/x", strings.NewReader(bodyText))
 				}
 				sc.Count("body:" + bodyKind)
+			}
+			if ci%4 == 3 {
+				// the registries are name-based virtual hosts behind one address: the request
+				// is addressed (Host) to the registry and dialled at the front
+				req.URL.Host = frontAddr
+				sc.Count("request:host-differs-from-dialled-address")
 			}
 			resp, err := client.Do(req)
 			if err == nil {
@@ -650,7 +669,7 @@ type concOut struct {
 }
 
 func (n *concNet) RoundTrip(req *http.Request) (*http.Response, error) {
-	host := req.URL.Host
+	host := addressedHost(req)
 	hn := n.hostNum[host]
 	var body []byte
 	if req.Body != nil && req.Body != http.NoBody {
